@@ -107,10 +107,19 @@ def main():
                     notes.append(f"leanchecker {m_}: ok")
 
     # ---- 2 tie: rebuild harness from /repo, correspondence ------------------------------
-    okc, outc = vlib.cargo_build()
+    okc, outc = vlib.cargo_build(tuple(["vharness"] + list(getattr(mod, "HARNESS_BINS", []))))
     if not okc:
         # the tree no longer compiles (or no longer compiles at the exact scalar): nothing can be run
         errs = "\n".join([l for l in outc.splitlines() if l.startswith("error")][:20])
+        witness = getattr(mod, "build_failure_witness", lambda o: None)(outc)
+        if witness:
+            # the compile error itself exhibits the failing object (e.g. an interpolator type that is not Sync)
+            path = write_replay(pid, "build", {"property": pid, "kind": "implementation", "what": witness, "detail": errs,
+                                                "replay": "cd /verif/harness && cargo build --release --offline --bin " +
+                                                          " --bin ".join(getattr(mod, "HARNESS_BINS", ["vharness"]))})
+            print(outc[-3000:])
+            print(f"VIOLATION property={pid} replay={path}")
+            sys.exit(1)
         path = write_replay(pid, "build", {"property": pid, "kind": "correspondence",
                                             "what": "harness/crate does not build against /repo", "detail": errs})
         print(outc[-3000:])
